@@ -737,7 +737,7 @@ fn listen_probe(ctx: &mut Ctx, initial: usize, max: usize, burst: bool) {
     set_callback(None);
     let scratch = Scratch::new("c14");
     let addr = scratch.unix_addr("c14.sock");
-    let (svc, _p) = vl_model::svc::t_service();
+    let (svc, _p) = vl_tsvc::t_service();
     let active = Arc::new(AtomicUsize::new(0));
     let peak = Arc::new(AtomicUsize::new(0));
     let server = Server::start(Counting { inner: svc, active: active.clone(), peak: peak.clone() }, &addr, initial, max, 0);
